@@ -202,11 +202,63 @@ Proof.
 Qed.
 
 (* ---------------------------------------------------------------------- *)
+(* residues that are BOTH ends of their chain (one-residue amino chains):    *)
+(* each flag acts only through the role it is allowed to touch               *)
+
+(* name level (C02's model of set_state): the residue carries both flags, the N
+   name wins; --neutralc therefore never changes its state, --neutraln changes
+   it N -> NEUTRAL-N (unless PRO / already neutral through two heavy N bonds) *)
+Theorem term_prefix_both_ends o cls r :
+  rs_n r = true -> rs_c r = true ->
+  term_prefix (mkopts (o_neutraln o) true) cls r = term_prefix (mkopts (o_neutraln o) false) cls r
+  /\ (cls <> C_PRO -> rd_nheavy2 (rs_d r) = false ->
+      term_prefix (mkopts true (o_neutralc o)) cls r = PNN
+      /\ term_prefix (mkopts false (o_neutralc o)) cls r = PN).
+Proof.
+  intros Hn Hc. split.
+  - apply term_prefix_neutralc_only. now right.
+  - intros Hp H2. unfold term_prefix. cbn [o_neutraln o_neutralc]. rewrite Hn, H2. cbn [orb].
+    destruct cls; try (split; reflexivity). now contradiction Hp.
+Qed.
+
+(* table level: the rows of a both-ends residue that differ only in the C-terminal
+   patch (T_N_C / T_N_NC, and T_NN_C / T_NN_NC) carry the same force-field name, so
+   --neutralc cannot change which parameters such a residue receives *)
+Definition c_only_pair (t1 t2 : tkind) : bool :=
+  match t1, t2 with T_N_C, T_N_NC | T_NN_C, T_NN_NC => true | _, _ => false end.
+
+Definition check_both_ends_names (rows : list arow) : bool :=
+  forallb (fun r1 => forallb (fun r2 =>
+    if same_residue r1 r2 && c_only_pair (ar_term r1) (ar_term r2)
+    then sname_eqb (ar_name r1) (ar_name r2) && Pos.eqb (ar_ff r1) (ar_ff r2)
+    else true) rows) rows.
+
+Lemma both_ends_table rows : check_both_ends_names rows = true ->
+  forall r1 r2, In r1 rows -> In r2 rows -> same_residue r1 r2 = true ->
+    c_only_pair (ar_term r1) (ar_term r2) = true ->
+    ar_name r1 = ar_name r2 /\ ar_ff r1 = ar_ff r2.
+Proof.
+  unfold check_both_ends_names. intros H r1 r2 H1 H2 Hs Hp.
+  rewrite forallb_forall in H. specialize (H r1 H1). rewrite forallb_forall in H. specialize (H r2 H2).
+  rewrite Hs, Hp in H. cbn [andb] in H. apply andb_true_iff in H. destruct H as [Hn Hf].
+  split; [now apply sname_eqb_eq | now apply Pos.eqb_eq].
+Qed.
+
+(* ---------------------------------------------------------------------- *)
 (* instances on the tables generated from the current repo                  *)
 From PV Require Generated.States Generated.FF_PARSE Generated.StatesFF_PARSE.
 
 Lemma generated_term_prefix : check_term_prefix Generated.States.arows = true.
 Proof. vm_compute. reflexivity. Qed.
+
+Lemma generated_both_ends_names : check_both_ends_names Generated.States.arows = true.
+Proof. vm_compute. reflexivity. Qed.
+
+(* the both-ends rows exist for every residue class (non-vacuity of the table fact) *)
+Lemma generated_both_ends_rows_exist :
+  List.length (filter (fun r1 => existsb (fun r2 => same_residue r1 r2 && c_only_pair (ar_term r1) (ar_term r2))
+                                         Generated.States.arows) Generated.States.arows) <> 0.
+Proof. vm_compute. discriminate. Qed.
 
 (* non-vacuity on the PARSE table: ALA as N-terminus (N -> NEUTRAL-N), an internal
    ALA (unchanged), ALA as C-terminus (C -> NEUTRAL-C) *)
